@@ -116,7 +116,7 @@ example : ∃ (m : Model (Ext K)) (b : BoundsMap (Ext K)) (d : List (DomVar (Ext
   · intro ρ; exact ⟨ρ "x", by simp [exAffine, eval]⟩
   · intro c hc
     exact ⟨(haff.cons c hc).notAssert, FG_of_AG (haff.cons c hc).lhs, FG_of_AG (haff.cons c hc).rhs, hdef c hc⟩
-  · intro ρ _ n bd hl; simp [lookupB] at hl
+  · intro ρ _ n bd _ hl; simp [lookupB] at hl
   · simp [srcFeasible, exAffine, constraintHolds, eval, cmpK, inDomain, geExt, leExt]
   · simp [exAffine, eval]
 
